@@ -155,7 +155,13 @@ struct Field {
 
 /// every accessor of every morpheme, restricted to the requested fields
 fn fields_of(list: &MorphemeList<WD>, req: InfoSubset) -> Vec<Field> {
+    fields_from(list, 0, req)
+}
+
+/// ... of the morphemes from position `from` on
+fn fields_from(list: &MorphemeList<WD>, from: usize, req: InfoSubset) -> Vec<Field> {
     list.iter()
+        .skip(from)
         .map(|m| {
             let wi = m.get_word_info();
             let mut r = vec![];
@@ -211,6 +217,58 @@ fn splits_of(list: &MorphemeList<WD>, req: InfoSubset) -> Vec<String> {
         }
     }
     v
+}
+
+/// split morpheme i of `src` into `out` (which is not cleared): the answer and what was appended, in the requested fields
+fn parts_into(src: &MorphemeList<WD>, i: usize, mode: Mode, out: &mut MorphemeList<WD>, req: InfoSubset) -> String {
+    let r = catch(|| {
+        let n0 = out.len();
+        let flag = src.get(i).split_into(mode, out).map_err(|e| e.to_string());
+        (flag, fields_from(out, n0, req))
+    });
+    format!("{:?}", r)
+}
+
+/// The TARGET list of an on-demand split has a history too: every other list of the run -- collected into by this or
+/// another tokenizer under whatever request, looked up into, split into -- receives the parts of a probe morpheme (first
+/// as it is, then after clear()); the parts must be those a fresh source list puts into a fresh target, in every field
+/// the source list's request covers.
+fn split_targets_with_history(hist: &mut [MorphemeList<WD>], src_idx: usize, fresh_src: &MorphemeList<WD>, req: InfoSubset) -> Option<String> {
+    let modes: Vec<Mode> = [(Mode::A, InfoSubset::SPLIT_A), (Mode::B, InfoSubset::SPLIT_B)].iter().filter(|x| req.contains(x.1)).map(|x| x.0).collect();
+    if modes.is_empty() || fresh_src.len() == 0 {
+        return None;
+    }
+    let wd = fresh_src.dict().clone();
+    for j in 0..hist.len() {
+        if j == src_idx {
+            continue;
+        }
+        for round in 0..2 {
+            if round == 1 {
+                hist[j].clear();
+            }
+            for k in 0..modes.len() {
+                let m = modes[(k + j) % modes.len()];
+                // a morpheme that really splits in this mode (the first one; else morpheme 0)
+                let i = (0..fresh_src.len()).find(|i| fresh_src.get(*i).split_into(m, &mut MorphemeList::empty(wd.clone())).unwrap_or(false)).unwrap_or(0);
+                let exp = parts_into(fresh_src, i, m, &mut MorphemeList::empty(wd.clone()), req);
+                let got = {
+                    let (src, tgt) = if src_idx < j {
+                        let (x, y) = hist.split_at_mut(j);
+                        (&x[src_idx], &mut y[0])
+                    } else {
+                        let (x, y) = hist.split_at_mut(src_idx);
+                        (&y[0], &mut x[j])
+                    };
+                    parts_into(src, i, m, tgt, req)
+                };
+                if got != exp {
+                    return Some(format!("split_into({:?}) of probe morpheme {} into result list {} of the run ({}) gives {}, into a fresh list {}", m, i, j, if round == 0 { "as the history left it" } else { "after clear()" }, got, exp));
+                }
+            }
+        }
+    }
+    None
 }
 
 /// compare the probe result of the history tokenizer with the one of a fresh tokenizer on the requested fields and on
@@ -540,6 +598,9 @@ fn run_case(sink: &mut Sink, w: &World, pool: &[Txt], m0: u8, ops: &[Op], probe:
                 bad = Some(format!("probe {:?}: {:?} after the history, outcome {} / {:?} on a fresh tokenizer with field request {:?}", pool[probe].json(), hist_collect, uflag, ucollect, request));
             } else {
                 bad = compare_lists("same field request", &im.lists[probe_list], &ulist, req).map(|m| format!("probe {:?}: {}", pool[probe].json(), m));
+                if bad.is_none() {
+                    bad = split_targets_with_history(&mut im.lists, probe_list, &ulist, req).map(|m| format!("probe {:?}: {}", pool[probe].json(), m));
+                }
             }
             if verbose {
                 println!("user request  : {:?}\nhistory splits: {:?}\nfresh splits  : {:?}", request, splits_of(&im.lists[probe_list], req), splits_of(&ulist, req));
@@ -646,7 +707,30 @@ fn gen_py_history(rng: &mut Rng) -> Value {
         let text = if rng.chance(1, 4) { "あ".repeat(20000) } else { rng.pick(&PY_TEXTS).to_string() };
         ops.push(json!({"op": "tokenize", "text": text, "mode": if rng.chance(2, 3) { json!(*rng.pick(&modes[..])) } else { Value::Null }, "out": rng.chance(1, 2)}));
     }
-    ops.push(json!({"op": "tokenize", "text": *rng.pick(&PY_TEXTS[..]), "mode": Value::Null, "out": rng.chance(1, 2)}));
+    // Morpheme.split / Dictionary.lookup with reused output lists in between
+    let mut ops2 = vec![];
+    for o in ops {
+        ops2.push(o);
+        if rng.chance(1, 3) {
+            ops2.push(json!({"op": "split", "index": rng.below(4), "mode": *rng.pick(&modes[..]), "out": rng.chance(2, 3), "add_single": rng.chance(1, 2)}));
+        }
+        if rng.chance(1, 6) {
+            ops2.push(json!({"op": "lookup", "query": *rng.pick(&["東京都", "京都", "に", ""][..]), "out": rng.chance(1, 2)}));
+        }
+    }
+    let mut ops = ops2;
+    if rng.chance(1, 2) {
+        // probe: a plain tokenize call
+        ops.push(json!({"op": "tokenize", "text": *rng.pick(&PY_TEXTS[..]), "mode": Value::Null, "out": rng.chance(1, 2)}));
+    } else {
+        // probe: an on-demand split (any of the three modes, reused output list or not, add_single or not) of a morpheme
+        // of the last tokenize call; the fresh session repeats that call and the split
+        ops.push(json!({"op": "tokenize", "text": *rng.pick(&PY_TEXTS[..]), "mode": if rng.chance(1, 3) { json!(*rng.pick(&modes[..])) } else { Value::Null }, "out": rng.chance(1, 2)}));
+        for _ in 0..rng.below(3) {
+            ops.push(json!({"op": "split", "index": rng.below(4), "mode": *rng.pick(&modes[..]), "out": true, "add_single": rng.chance(1, 2)}));
+        }
+        ops.push(json!({"op": "split", "index": rng.below(4), "mode": *rng.pick(&modes[..]), "out": rng.chance(3, 4), "add_single": rng.chance(1, 2)}));
+    }
     json!({"mode": *rng.pick(&modes[..]), "fields": fields, "projection": Value::Null, "ops": ops})
 }
 
@@ -669,6 +753,16 @@ fn python_stage(sink: &mut Sink, args: &Args, rng: &mut Rng, replay: Option<Valu
             let mut v = vec![
                 json!({"mode": "C", "fields": null, "projection": null, "ops": [{"op": "tokenize", "text": "東京都", "mode": "A", "out": false}, {"op": "tokenize", "text": "東京都", "mode": null, "out": false}]}),
                 json!({"mode": "A", "fields": null, "projection": null, "ops": [{"op": "tokenize", "text": "あ".repeat(20000), "mode": null, "out": true}, {"op": "tokenize", "text": "東京都に行った", "mode": null, "out": true}]}),
+                // a reused output list of Morpheme.split that is not empty when the probe split (every mode, with and without
+                // add_single) is made
+                json!({"mode": "C", "fields": null, "projection": null, "ops": [{"op": "tokenize", "text": "東京都に行った", "mode": null, "out": false},
+                    {"op": "split", "index": 0, "mode": "A", "out": true, "add_single": true}, {"op": "split", "index": 0, "mode": "C", "out": true, "add_single": true}]}),
+                json!({"mode": "C", "fields": null, "projection": null, "ops": [{"op": "tokenize", "text": "東京都に行った", "mode": null, "out": false},
+                    {"op": "split", "index": 0, "mode": "A", "out": true, "add_single": true}, {"op": "split", "index": 1, "mode": "C", "out": true, "add_single": false}]}),
+                json!({"mode": "C", "fields": null, "projection": null, "ops": [{"op": "tokenize", "text": "東京都に行った", "mode": null, "out": true},
+                    {"op": "split", "index": 0, "mode": "A", "out": true, "add_single": true}, {"op": "split", "index": 1, "mode": "B", "out": true, "add_single": true}]}),
+                json!({"mode": "B", "fields": ["pos"], "projection": null, "ops": [{"op": "tokenize", "text": "東京都に行った", "mode": null, "out": true},
+                    {"op": "split", "index": 0, "mode": "A", "out": true, "add_single": false}, {"op": "split", "index": 1, "mode": "A", "out": true, "add_single": false}]}),
             ];
             for _ in 0..args.n(150, 3000) {
                 v.push(gen_py_history(rng));
@@ -678,9 +772,18 @@ fn python_stage(sink: &mut Sink, args: &Args, rng: &mut Rng, replay: Option<Valu
     };
     let mut sessions = vec![];
     for h in &hist {
-        let probe = h["ops"].as_array().unwrap().last().unwrap().clone();
+        let hops = h["ops"].as_array().unwrap();
+        let probe = hops.last().unwrap().clone();
+        let mut fops = vec![];
+        if probe["op"] == "split" {
+            // the call whose result the probe splits: repeated on the fresh Tokenizer
+            if let Some(t) = hops.iter().rev().find(|o| o["op"] == "tokenize") {
+                fops.push(t.clone());
+            }
+        }
+        fops.push(probe);
         sessions.push(h.clone());
-        sessions.push(json!({"mode": h["mode"], "fields": h["fields"], "projection": h["projection"], "ops": [probe]}));
+        sessions.push(json!({"mode": h["mode"], "fields": h["fields"], "projection": h["projection"], "ops": fops}));
     }
     std::fs::create_dir_all(&args.work).unwrap();
     let sp = args.work.join("c10_sessions.json");
@@ -725,18 +828,34 @@ fn python_stage(sink: &mut Sink, args: &Args, rng: &mut Rng, replay: Option<Valu
         let ops = h["ops"].as_array().unwrap();
         let nontrivial = ops.len() >= 2 && a["morphemes"].as_array().map_or(false, |m| !m.is_empty());
         sink.tag("py-history-session");
-        if ops[..ops.len() - 1].iter().any(|o| !o["mode"].is_null()) {
+        if ops.last().unwrap()["op"] == "split" {
+            sink.tag("py:probe_is_Morpheme.split");
+            if ops[..ops.len() - 1].iter().any(|o| o["op"] == "split" && o["out"] == true) && ops.last().unwrap()["out"] == true {
+                sink.tag("py:probe_split_into_reused_non-fresh_list");
+            }
+        }
+        if ops[..ops.len() - 1].iter().any(|o| o["op"] == "tokenize" && !o["mode"].is_null()) {
             sink.tag("py:per-call_mode_override");
         }
         if ops[..ops.len() - 1].iter().any(|o| o["text"].as_str().map_or(false, |t| t.len() > 49149)) {
             sink.tag("py:failing_call_in_history");
         }
-        if ops[..ops.len() - 1].iter().any(|o| !o["mode"].is_null() && o["text"].as_str().map_or(false, |t| t.len() > 49149)) {
+        if ops[..ops.len() - 1].iter().any(|o| o["op"] == "tokenize" && !o["mode"].is_null() && o["text"].as_str().map_or(false, |t| t.len() > 49149)) {
             sink.tag("py:failing_call_with_mode_override");
         }
         let id = sink.case_rust_only(json!({"kind": "py-history", "session": h}), nontrivial);
         if args.replay.is_some() {
             println!("python probe after the history : {}\npython probe, fresh Tokenizer   : {}", a, b);
+        }
+        // an on-demand split in mode A / B reads the split list of that mode: comparable only when the request covers it
+        // (all fields, the split field itself, or the tokenizer's own mode) -- earlier per-call modes legitimately leave it loaded
+        let pr = ops.last().unwrap();
+        if pr["op"] == "split" && pr["mode"] != "C" {
+            let f = if pr["mode"] == "A" { "split_a" } else { "split_b" };
+            if !(requested(f) || h["mode"] == pr["mode"]) {
+                sink.tag("py:split_probe_outside_the_request(not compared)");
+                continue;
+            }
         }
         if a != b {
             let what = if a["ok"] != b["ok"] {
@@ -748,7 +867,9 @@ fn python_stage(sink: &mut Sink, args: &Args, rng: &mut Rng, replay: Option<Valu
                 let k = ma.iter().zip(mb.iter()).position(|(x, y)| x != y).unwrap_or(ma.len().min(mb.len()));
                 format!("{} morphemes after the history, {} fresh; first difference at {}: {} vs {}", ma.len(), mb.len(), k, ma.get(k).unwrap_or(&Value::Null), mb.get(k).unwrap_or(&Value::Null))
             };
-            sink.fail(id, &format!("sudachipy Tokenizer(mode {}), probe {:?} after {} earlier calls: {}", h["mode"], ops.last().unwrap()["text"], ops.len() - 1, what), "");
+            let pr = ops.last().unwrap();
+            let pdesc = if pr["op"] == "split" { format!("Morpheme.split(index {}, mode {}, out={}, add_single={})", pr["index"], pr["mode"], pr["out"], pr["add_single"]) } else { format!("tokenize({})", pr["text"]) };
+            sink.fail(id, &format!("sudachipy Tokenizer(mode {}), probe {} after {} earlier calls: {}", h["mode"], pdesc, ops.len() - 1, what), "");
         }
     }
 }
@@ -972,7 +1093,7 @@ fn concrete_stage(sink: &mut Sink, args: &Args, rng: &mut Rng) {
 pub fn run(args: &Args) {
     let mut sink = Sink::new("C10", &args.out, &["Model.TokState", "Proofs.TokStateConcrete"], args.seed, &args.tier);
     sink.shard_size = 60;
-    sink.rule("per generated dictionary (as in C09, with DefaultInputTextPlugin + length-changing rewrite.def and a path rewrite plugin that fails on '!'): a pool of texts (empty, short, long, oversized for start_build, oversized after rewriting, late-failing) and random sequences of 1..9 operations {set_mode, set_subset (all / random / narrow requests), analyse, new list, collect into a possibly reused list, split_into, lookup, another tokenizer collecting into the shared list} -- half of them call-structured: [request change] analyse collect, mostly into the same list -- on one StatefulTokenizer, then a probe (analyse + collect into a possibly reused list) compared in outcome, boundaries, word ids, every requested field and the on-demand split (split_into A/B) of every morpheme with (1) a fresh tokenizer carrying the same accumulated field set and (2) a fresh tokenizer of the same mode given the user's field request (default or last set_subset); plus a slice run on the INSTANTIATED machine (Proofs/TokStateConcrete.v: stages = Tokenizer.tokenize_model's, word infos under the loaded subset): small dictionaries shipped as tables, texts of at most 12 characters, the whole history replayed in Coq and the probe compared in byte ranges and word ids; plus sudachipy sessions (module built from the working tree): 1..5 tokenize calls with per-call mode override / out= reuse / rejected texts, then a probe call compared in boundaries, word ids, every requested field and tokenizer.mode with a fresh Tokenizer of the same mode and fields; non-trivial = the history holds at least one analysis and the probe yields tokens");
+    sink.rule("per generated dictionary (as in C09, with DefaultInputTextPlugin + length-changing rewrite.def and a path rewrite plugin that fails on '!'): a pool of texts (empty, short, long, oversized for start_build, oversized after rewriting, late-failing) and random sequences of 1..9 operations {set_mode, set_subset (all / random / narrow requests), analyse, new list, collect into a possibly reused list, split_into, lookup, another tokenizer collecting into the shared list} -- half of them call-structured: [request change] analyse collect, mostly into the same list -- on one StatefulTokenizer, then a probe (analyse + collect into a possibly reused list) compared in outcome, boundaries, word ids, every requested field and the on-demand split (split_into A/B) of every morpheme -- into a fresh list and into every other result list of the run with its own history (as left, and after clear()) -- with (1) a fresh tokenizer carrying the same accumulated field set and (2) a fresh tokenizer of the same mode given the user's field request (default or last set_subset); plus a slice run on the INSTANTIATED machine (Proofs/TokStateConcrete.v: stages = Tokenizer.tokenize_model's, word infos under the loaded subset): small dictionaries shipped as tables, texts of at most 12 characters, the whole history replayed in Coq and the probe compared in byte ranges and word ids; plus sudachipy sessions (module built from the working tree): 1..5 tokenize calls with per-call mode override / out= reuse / rejected texts, Morpheme.split (modes A/B/C, out= reuse, add_single) and Dictionary.lookup(out=) in between, then a probe call (tokenize, or Morpheme.split of the last result in any mode into a possibly non-empty reused list) compared in boundaries, word ids, every requested field and tokenizer.mode with a fresh Tokenizer of the same mode and fields; non-trivial = the history holds at least one analysis and the probe yields tokens");
     let res = prepare_resources(&args.work);
     let cfg = config_json(&res, "");
     if let Some(p) = &args.replay {
@@ -1036,6 +1157,12 @@ pub fn run(args: &Args) {
             vec![Op::NewList, Op::SetSubset(4), Op::Analyse(8), Op::Collect(0), Op::SetSubset(1023), Op::Analyse(3), Op::Collect(0)],
             vec![Op::NewList, Op::SetMode(2), Op::SetSubset(1), Op::Analyse(8), Op::Collect(0), Op::SetMode(0), Op::Analyse(8), Op::Collect(0)],
             vec![Op::NewList, Op::OtherCollect(0, 8, 2, 4), Op::Analyse(3), Op::Collect(0)],
+            // a second list with a history of its own (narrow request; another tokenizer; lookup; an earlier split), later the
+            // target of on-demand splits of the probe
+            vec![Op::NewList, Op::NewList, Op::SetSubset(1), Op::Analyse(8), Op::Collect(1), Op::SetSubset(1023)],
+            vec![Op::NewList, Op::NewList, Op::SetSubset(4), Op::Analyse(8), Op::Collect(1), Op::SetSubset(1023), Op::Analyse(3), Op::Collect(0)],
+            vec![Op::NewList, Op::NewList, Op::OtherCollect(1, 8, 2, 0), Op::Lookup(1, 9, 1)],
+            vec![Op::NewList, Op::NewList, Op::NewList, Op::OtherCollect(2, 8, 0, 4), Op::Analyse(8), Op::Collect(1), Op::SplitInto(0, 1, 0, 2)],
         ];
         for (k, ops) in directed.iter().enumerate() {
             let probe = if k == 3 { 0 } else { 3 + rng.below(5) as usize };
